@@ -190,6 +190,29 @@ def r12g(F):
 		if k == 0 and any(c == -1 and 'drop' in v for v, c in terms.items()):
 			okd = True
 	out.append(Result('12.g', okd, ('ok:' if okd else 'shape:') + 'disconnect-htlc-id', 'remove_uncommitted_htlcs_and_mark_paused decrements next_counterparty_htlc_id by the dropped count', max(1, len(ws)), where=F.where(dfn)))
+	# the inbound fee update: the writer keeps (for a fundee) exactly the state the reader restores, and drops the state the disconnect path drops
+	vs = enum_variants(F, L + 'ln::channel::FeeUpdateState')
+	kept = set()
+	for sb, m, other in variant_switch_edges(fu, lambda pl: True, vs):
+		if sb not in fu.reach([0]):
+			continue
+		if any(st[2][0] == 'disc' and 'pending_update_fee' in str(st[2]) for st in fu.blocks[sb]['s']) or any('pending_update_fee' in str(st) for st in fu.blocks[sb]['s']):
+			kept |= {v for v, t in m.items() if t != other}
+	rfn = '<lightning::ln::channel::FundedChannel as lightning::util::ser::ReadableArgs>::read'
+	ru = F.func(rfn)
+	restored = {ru.blocks[b]['s'][si][2][3] for b, si in sites_construct(ru, 'FeeUpdateState')} - {'Outbound'}
+	dropped = set()
+	for b, ci in du.calls():
+		f = norm(ci.get('f') or ci.get('t') or '')
+		if f.endswith('PartialEq>::eq') and 'FeeUpdateState' in f:
+			for a in ci['args']:
+				e = dex.of_operand(a)
+				while e[0] in ('ref', 'deref'):
+					e = e[1]
+				if e[0] == 'agg' and e[2] in vs:
+					dropped.add(e[2])
+	okf = bool(kept) and kept == restored and not (kept & dropped) and bool(dropped)
+	out.append(Result('12.g', okf, ('ok:' if okf else 'state:') + 'inbound-fee-update-kept-iff-committed', 'pending inbound update_fee: FundedChannel::write keeps it in state %s, the reader restores state %s, the disconnect path drops state %s (kept must equal restored and be disjoint from dropped: an update that is only announced is forgotten by both sides, a committed one must survive)' % (sorted(kept), sorted(restored), sorted(dropped)), len(kept) + len(restored) + len(dropped), where=F.where(wfn)))
 	return out
 
 RULES.append(('12.g', 'writer and disconnect path agree on dropping uncommitted inbound HTLCs and adjusting next_counterparty_htlc_id', r12g))
